@@ -933,7 +933,10 @@ def pair_cases(kind, tier, seed):
                     # depends on the pair and the seed so that different seeds (and pairs)
                     # visit different configurations
                     pick = (i * 7 + j * 3 + seed) % len(configs)
-                    combos = [c for c in combos if c[0] == pick]
+                    if not (rel == "same" and kind in ("MemoryFS", "OSFS")):
+                        # two calls on the SAME path race most: all four states of that path (file, empty
+                        # directory, non-empty directory, missing) for the two primary backends
+                        combos = [c for c in combos if c[0] == pick]
                 for ci, ta, pa, tb, pb in combos:
                     cases.append(dict(fs=kind, relation=rel, config="%s-%d" % (rel, ci),
                                       threads=[[make_call(ta, pa, 0)], [make_call(tb, pb, 1)]]))
@@ -1308,7 +1311,7 @@ def explore(tier, seed, procs=None, budget_s=None, plan=None):
     if procs is None:
         procs = min(16, os.cpu_count() or 1)
     if budget_s is None:
-        budget_s = 840 if tier == "thorough" else 170
+        budget_s = 840 if tier == "thorough" else 420
     units = []
     for cases, params in plan:
         size = params.get("unit") or (6 if tier == "thorough" else 12)
